@@ -59,6 +59,49 @@ def read_back(root):
     return out
 
 
+FIX2 = os.path.join(VERIF, 'fixtures', 'released2')
+JKEYS = ['\u00e9', '\u043a\u043b\u044e\u0447', '\u65e5\u672c', 'ascii', ['list', '\u00e9', 1], 1.5, None, True]
+JVALS = ['\u00fcber', 'x' * 10, ['\u00e9', {'\u043a': [1, None]}], '\u65e5' * 3000, {'n': 1.5}]
+
+
+def write_fixture2(root):
+    """second reference directory: JSONDisk with non-ASCII keys and values (Cache and 3-shard FanoutCache), text values with
+    non-ASCII characters in files.  Written ONCE by the pinned version (tools/mkfixtures2.py)."""
+    import diskcache
+    j = diskcache.Cache(os.path.join(root, 'json-keys'), disk=diskcache.JSONDisk, disk_compress_level=3, disk_min_file_size=2 ** 12)
+    for i, k in enumerate(JKEYS):
+        j.set(k, JVALS[i % len(JVALS)], tag='t' if i % 2 else None)
+    j.close()
+    f = diskcache.FanoutCache(os.path.join(root, 'fanout-json'), shards=3, disk=diskcache.JSONDisk, disk_min_file_size=2 ** 12)
+    for i, k in enumerate(JKEYS):
+        f.set(k, JVALS[(i + 2) % len(JVALS)])
+    f.close()
+    t = diskcache.Cache(os.path.join(root, 'text'), disk_min_file_size=2 ** 10)
+    for i, v in enumerate(['\u00e9' * 2000, '\ufeffbom' + 'z' * 3000, 'a\u2028b' * 800, '\U0001f600' * 600]):
+        t['t%d' % i] = v
+    t.close()
+
+
+def read_back2(root):
+    import diskcache
+    out = {}
+    j = diskcache.Cache(os.path.join(root, 'json-keys'), disk=diskcache.JSONDisk)
+    out['json2.len'] = digest(len(j))
+    for k in JKEYS:
+        out['json2.item.%r' % (k,)] = digest(j.get(k, default='<missing>', tag=True))
+    j.close()
+    f = diskcache.FanoutCache(os.path.join(root, 'fanout-json'), shards=3, disk=diskcache.JSONDisk)
+    out['fjson.len'] = digest(len(f))
+    for k in JKEYS:
+        out['fjson.item.%r' % (k,)] = digest(f.get(k, default='<missing>'))
+    f.close()
+    t = diskcache.Cache(os.path.join(root, 'text'))
+    for i in range(4):
+        out['text.t%d' % i] = digest(t.get('t%d' % i, default='<missing>'))
+    t.close()
+    return out
+
+
 def _hist(cfg, ops, seed, tid):
     return seqdriver.run_history(cfg, ops, seed, tid)
 
@@ -131,6 +174,18 @@ def run(prop, tier, seed):
             if nth % 7 == 0:
                 ops += [o for o in gen.random_history(rng, 2, keys, vals, dict(clear=0, cull=0))]
         jobs.append((cfg, ops, seed + 9000 + j, n + j + 1))
+    # text stored in files, read and written by a fresh interpreter whose locale is not UTF-8
+    for j in range(2):
+        cfg = gen.random_cfg(rng, small_limit=False)
+        cfg['limit'] = 2 ** 29
+        KA_, KB_ = [1, 97], [1, 98]
+        tv = lambda n: 300000 + (36 + 4 * n) * 100 + 2 * n + 1          # non-ASCII text of 36+ KiB (odd ids)
+        get = lambda k: {'op': 'get', 'a': {'k': k, 'fx': 0, 'ft': 0, 'mk': 'miss'}}
+        setv = lambda k, v: {'op': 'set', 'a': {'k': k, 'v': v, 'ttl': [], 'tag': 0}}
+        ops = [setv(KA_, tv(j)), {'op': 'via', 'a': {'how': 'proc', 'inner': get(KA_)}}, {'op': 'via', 'a': {'how': 'proc', 'inner': setv(KB_, tv(j + 2))}},
+               get(KB_), {'op': 'via', 'a': {'how': 'fork', 'inner': get(KB_)}}, {'op': 'reopen', 'a': {'args': 0}},
+               {'op': 'via', 'a': {'how': 'proc', 'inner': {'op': 'pop', 'a': {'k': KA_, 'fx': 0, 'ft': 0}}}}, get(KA_)]
+        jobs.append((cfg, ops, seed + 9500 + j, n + 20 + j))
     traces = pmap(_hist, jobs, procs=14)
     out.traces = len(traces)
     out.events = sum(len(t['ev']) for t in traces)
@@ -146,32 +201,35 @@ def run(prop, tier, seed):
             out.violation('history with lifecycle events rejected at event %d (%s): %s; reference %s; observed %s'
                           % (v['at'], v['op'], v['why'], v.get('expected', '')[:200], str({k: e[k] for k in ('a', 'now', 'ret')})[:300]),
                           {'cfg': t['cfg'], 'events': t['ev'][:v['at']], 'verdict': v})
-    # format stability: the committed reference directory, read by the current tree
-    if not os.path.exists(os.path.join(FIX, 'expected.json')):
-        raise MachineryError('fixtures/released is missing (tools/mkfixtures.py released)')
-    scratch = envctl.scratch('fix')
-    shutil.rmtree(scratch)
-    shutil.copytree(FIX, scratch)
-    try:
-        expected = json.load(open(os.path.join(FIX, 'expected.json')))
+    # format stability: the committed reference directories, read by the current tree
+    total = 0
+    for n_, (fix, reader) in enumerate(((FIX, read_back), (FIX2, read_back2))):
+        if not os.path.exists(os.path.join(fix, 'expected.json')):
+            raise MachineryError('%s is missing (tools/mkfixtures.py released / tools/mkfixtures2.py)' % fix)
+        scratch = envctl.scratch('fix')
+        shutil.rmtree(scratch)
+        shutil.copytree(fix, scratch)
         try:
-            observed = read_back(scratch)
-        except Exception as exc:
-            observed = {'<reading the reference directory raised>': type(exc).__name__ + ': ' + str(exc)[:100]}
-        ev = [{'what': k, 'exp': expected.get(k, '<absent>'), 'obs': observed.get(k, '<absent>')} for k in sorted(set(expected) | set(observed))]
-        ft = [{'id': 1, 'ev': ev}]
-        common.TRACE_FIELDS = ('id', 'ev')
-        verdicts, st, tr = validate_all('FixtureTrace.tla', 'FixtureTrace.cfg', ft)
-        out.states += st
-        out.transitions += tr
-        if not verdicts[1]['ok']:
-            bad = [e for e in ev if e['exp'] != e['obs']]
-            out.violation(verdicts[1]['why'] + ' (%d of %d objects differ, e.g. %s)' % (len(bad), len(ev), [b['what'] for b in bad[:4]]), {'differences': bad[:40]})
-        out.traces += 1
-        out.events += len(ev)
-        out.notes['fixture_objects_compared'] = len(ev)
-    finally:
-        envctl.rm(scratch)
+            expected = json.load(open(os.path.join(fix, 'expected.json')))
+            try:
+                observed = reader(scratch)
+            except Exception as exc:
+                observed = {'<reading the reference directory raised>': type(exc).__name__ + ': ' + str(exc)[:100]}
+            ev = [{'what': k, 'exp': expected.get(k, '<absent>'), 'obs': observed.get(k, '<absent>')} for k in sorted(set(expected) | set(observed))]
+            ft = [{'id': 1, 'ev': ev}]
+            common.TRACE_FIELDS = ('id', 'ev')
+            verdicts, st, tr = validate_all('FixtureTrace.tla', 'FixtureTrace.cfg', ft)
+            out.states += st
+            out.transitions += tr
+            if not verdicts[1]['ok']:
+                bad = [e for e in ev if e['exp'] != e['obs']]
+                out.violation(verdicts[1]['why'] + ' (%d of %d objects differ, e.g. %s)' % (len(bad), len(ev), [b['what'] for b in bad[:4]]), {'differences': bad[:40]})
+            out.traces += 1
+            out.events += len(ev)
+            total += len(ev)
+        finally:
+            envctl.rm(scratch)
+    out.notes['fixture_objects_compared'] = total
     out.samples.append({'cfg': traces[0]['cfg'], 'ops': [[e['op'], e['a'], e['ret']] for e in traces[0]['ev'][:14]]})
     out.notes['lifecycle_events'] = sum(1 for t in traces for e in t['ev'] if e['op'] in ('reopen', 'pickle', 'close', 'via', 'settings'))
     out.level = 'model_checking'
